@@ -54,6 +54,7 @@ let run_op ctx (toks : string list) =
       let l' = addttlattr (n_of_int (int_of_string t0)) (n_of_int (int_of_string t1)) (n_of_int (int_of_string a)) l in
       pr "obs %d addttl%s\n" ctx.opidx (str_of_tlvs l')
   | op :: _ when Ops.run ctx.opidx (impl_obs ctx) toks -> ignore op
+  | op :: _ when Pipe.run ctx.opidx (List.rev (Hashtbl.find_all ctx.impl ctx.opidx)) toks -> ignore op
   | op :: _ -> pr "obs %d unknown-op %s\n" ctx.opidx op
   | [] -> ());
   ctx.opidx <- ctx.opidx + 1
@@ -102,12 +103,13 @@ let () =
       let impl = match Hashtbl.find_opt impl_tbl id with Some t -> t | None -> Hashtbl.create 1 in
       let ctx = { opidx = 0; impl } in
       pr "case %s\n" id;
-      Ops.case_begin ();
+      Ops.case_begin (); Pipe.reset ();
       (match Hashtbl.find_opt impl_raw id with Some ls -> Ops.load_oracle ls | None -> ());
       List.iter
         (fun l ->
           match split_ws l with
           | "op" :: toks -> run_op ctx toks
+          | "cfg" :: rest -> Ops.line "cfg" rest l; Pipe.cfg_line rest
           | kind :: rest -> Ops.line kind rest l
           | [] -> ())
         lines;
